@@ -13,9 +13,14 @@ Q = 'chython.periodictable.base.query'
 def canon_atom(e):
     """(predicate, polarity) for an atomic boolean expression"""
     pol = True
-    while isinstance(e, ast.UnaryOp) and isinstance(e.op, ast.Not):
-        e = e.operand
-        pol = not pol
+    while True:
+        if isinstance(e, ast.UnaryOp) and isinstance(e.op, ast.Not):
+            e = e.operand
+            pol = not pol
+        elif isinstance(e, ast.Call) and isinstance(e.func, ast.Name) and e.func.id == 'bool' and len(e.args) == 1 and not e.keywords:
+            e = e.args[0]  # bool(x) has the truth value of x
+        else:
+            break
     if isinstance(e, ast.Compare) and len(e.ops) == 1:
         a, b, op = src(e.left), src(e.comparators[0]), e.ops[0]
         if isinstance(op, (ast.NotEq, ast.Eq)):
@@ -51,6 +56,7 @@ def _helper_truthy_dnf(call):
 
     class Swap(ast.NodeTransformer):
         def visit_Return(self, node):
+            self.generic_visit(node)
             v = node.value
             if isinstance(v, ast.Constant) and isinstance(v.value, bool):
                 return ast.copy_location(ast.Return(value=ast.Constant(value=not v.value)), node)
@@ -144,9 +150,10 @@ def reject_dnf(body, path=None):
                 falls = falls or f
                 if test is not None and not _pure_reject(blk):
                     neg_prev = conj(neg_prev, dnf(test, False))
-                if any(isinstance(n, ast.Return) and not (isinstance(n.value, ast.Constant) and n.value.value is False)
-                       for n in ast.walk(ast.Module(body=blk, type_ignores=[]))):
-                    raise AnalysisError('accepting return inside a nested branch of an __eq__ ladder: idiom not handled')
+                    if not f:
+                        # the branch always returns and may ACCEPT (return True / return <expr>): what follows the if is reached only when
+                        # the branch was not taken
+                        path = conj(path, dnf(test, False))
             if not has_else:
                 falls = True
             if not falls:
